@@ -777,6 +777,10 @@ func (e *SpecEnv) call(n *SCall, hint types.Type) Val {
 	case "cast": // cast(T, ifaceValue): the dynamic value of an interface, viewed at type T
 		t := e.typeFromExpr(n.Args[0])
 		v := e.eval(n.Args[1], nil)
+		if _, toPtr := t.Underlying().(*types.Pointer); toPtr && (isUnsafePtr(v.T) || isPointer(v.T)) {
+			// reinterpretation of a raw/unsafe pointer at a pointer type
+			return Val{T: t, S: v.S, P: v.P}
+		}
 		srt := c.sortOf(t)
 		fn := "ifaceval_" + sanitize(srt)
 		c.decl("fn:"+fn, fmt.Sprintf("(declare-fun %s (Int) %s)", fn, srt))
@@ -914,6 +918,7 @@ func (e *SpecEnv) callPure(pf *PureFunc, args []SExpr, hint types.Type) Val {
 // lvalue evaluation for modifies clauses -----------------------------------
 
 type lval struct {
+	globalsOf *ssa.Package // modifies globals(pkg): every package-level variable of pkg
 	path  *Path
 	whole bool   // x[*]: the whole array window of a slice
 	slice string // slice term for whole
@@ -924,6 +929,22 @@ type lval struct {
 func (e *SpecEnv) lvalue(x SExpr) lval {
 	c := e.c
 	switch n := x.(type) {
+	case *SCall:
+		if n.Fn == "globals" && len(n.Args) == 1 {
+			if id, ok := n.Args[0].(*SIdent); ok && e.pkg != nil {
+				if id.Name == e.pkg.Pkg.Name() {
+					return lval{globalsOf: e.pkg}
+				}
+				for _, imp := range e.pkg.Pkg.Imports() {
+					if imp.Name() == id.Name {
+						if sp := c.eng.prog.Package(imp); sp != nil {
+							return lval{globalsOf: sp}
+						}
+					}
+				}
+			}
+			sfail("globals(%s): unknown package", n.Args[0])
+		}
 	case *SUnary:
 		if n.Op == "*" {
 			v := e.eval(n.X, nil)
